@@ -116,6 +116,20 @@ def swrap (n : Nat) (k : Ctx) (c : Cmd) : Flow × Env → Res
       | some (.exit, e2) => some (.exit, e2)
       | some (_, e2) => if e2.errexit then some (.exit, e2) else some (.norm, e2)
     else some (.norm, e1)
+  | (.brk m, e1) =>
+    if isBrkCont c && e1.status != 0 && !k.ign then
+      match sem n k (.trap e1.trapErr) e1 with
+      | none => none
+      | some (.exit, e2) => some (.exit, e2)
+      | some (_, e2) => if e2.errexit then some (.exit, e2) else some (.brk m, e2)
+    else some (.brk m, e1)
+  | (.cont m, e1) =>
+    if isBrkCont c && e1.status != 0 && !k.ign then
+      match sem n k (.trap e1.trapErr) e1 with
+      | none => none
+      | some (.exit, e2) => some (.exit, e2)
+      | some (_, e2) => if e2.errexit then some (.exit, e2) else some (.cont m, e2)
+    else some (.cont m, e1)
   | r => some r
 
 theorem sem_stmt_nonneg (n : Nat) (k : Ctx) (c : Cmd) (e : Env) :
@@ -180,9 +194,21 @@ theorem swrap_fire {n : Nat} {k : Ctx} {c : Cmd} {e1 : Env} (hic : isChecked c =
     swrap n k c (.norm, e1) = if e1.errexit then some (.exit, e1) else some (.norm, e1) := by
   simp [swrap, hic, hst, hi, htr]
 
-theorem swrap_other {n : Nat} {k : Ctx} {c : Cmd} {fl : Flow} {e1 : Env} (h : fl ≠ .norm) :
+theorem swrap_other {n : Nat} {k : Ctx} {c : Cmd} {fl : Flow} {e1 : Env} (h : fl ≠ .norm)
+    (h0 : (∀ m, fl ≠ .brk m) ∧ (∀ m, fl ≠ .cont m) ∨ e1.status = 0) :
     swrap n k c (fl, e1) = some (fl, e1) := by
-  cases fl <;> first | exact absurd rfl h | rfl
+  cases fl with
+  | norm => exact absurd rfl h
+  | ret => rfl
+  | exit => rfl
+  | brk m =>
+    rcases h0 with h0 | h0
+    · exact absurd rfl (h0.1 m)
+    · simp [swrap, h0]
+  | cont m =>
+    rcases h0 with h0 | h0
+    · exact absurd rfl (h0.2 m)
+    · simp [swrap, h0]
 
 theorem Frame.trans {a b c : St} (h1 : Frame a b) (h2 : Frame b c) : Frame a c :=
   ⟨h2.ne.trans h1.ne, h2.il.trans h1.il, h2.inf.trans h1.inf⟩
@@ -268,7 +294,7 @@ theorem wrap_nonneg {n : Nat} {K : SCtx} {k : Ctx} {sub : Bool} {c : Cmd} {s s0 
     subst he
     have hok : s1.exit.ok = true := by simp [Exit.ok, hz]
     have hfr' : Frame s s1 := hf0.trans hfr
-    rw [mwrap_skip (Or.inl hok), swrap_other (by simp)]
+    rw [mwrap_skip (Or.inl hok), swrap_other (by simp) (Or.inr hz)]
     exact ⟨rfl, ⟨hd.cerr, hd.csub, hd.fok, hd.ht, hd.eign, hd.noe, hd.sfn, hd.inl⟩,
       ⟨hfr'.ne, hfr'.il, hfr'.inf⟩, hnf, hb, hc, hl, hz, fun _ => rfl⟩
   | cont m =>
@@ -276,7 +302,7 @@ theorem wrap_nonneg {n : Nat} {K : SCtx} {k : Ctx} {sub : Bool} {c : Cmd} {s s0 
     subst he
     have hok : s1.exit.ok = true := by simp [Exit.ok, hz]
     have hfr' : Frame s s1 := hf0.trans hfr
-    rw [mwrap_skip (Or.inl hok), swrap_other (by simp)]
+    rw [mwrap_skip (Or.inl hok), swrap_other (by simp) (Or.inr hz)]
     exact ⟨rfl, ⟨hd.cerr, hd.csub, hd.fok, hd.ht, hd.eign, hd.noe, hd.sfn, hd.inl⟩,
       ⟨hfr'.ne, hfr'.il, hfr'.inf⟩, hnf, hb, hc, hl, hz, fun _ => rfl⟩
   | ret =>
@@ -285,7 +311,7 @@ theorem wrap_nonneg {n : Nat} {K : SCtx} {k : Ctx} {sub : Bool} {c : Cmd} {s s0 
     have hfr' : Frame s s1 := hf0.trans hfr
     have hrt : run n (.trap s1.callbackErr) s1 = some s1 := by
       rw [hd.cerr]; exact run_trap_nil hn s1
-    rw [swrap_other (by simp)]
+    rw [swrap_other (by simp) (Or.inl ⟨by simp, by simp⟩)]
     -- nothing happens, or `exiting` is added where the test fires under errexit
     have hplain : Post K k sub True (tailOkC c = true) s { s1 with lastExit := s1.exit } .ret (absEnvC s1) :=
       ⟨rfl, ⟨hd.cerr, hd.csub, hd.fok, hd.ht, hd.eign, hd.noe, hd.sfn, hd.inl⟩,
@@ -309,7 +335,7 @@ theorem wrap_nonneg {n : Nat} {K : SCtx} {k : Ctx} {sub : Bool} {c : Cmd} {s s0 
     obtain ⟨hx, hr, hs, ho, ht, hcs, hht, hce, hnp⟩ := h
     have hrt : run n (.trap s1.callbackErr) s1 = some s1 := by
       rw [hce]; exact run_trap_nil hn s1
-    rw [swrap_other (by simp)]
+    rw [swrap_other (by simp) (Or.inl ⟨by simp, by simp⟩)]
     have hplain : Post K k sub True (tailOkC c = true) s { s1 with lastExit := s1.exit } .exit e1 :=
       ⟨hx, hr, hs, ho, ht, hcs, hht, hce, hnp⟩
     by_cases hao : c.isAndOr = true
